@@ -53,7 +53,7 @@ SPECS["C08"] = dict(
         "Woodpile.Props.C08.attempts_irrelevant",
         "Woodpile.Props.C08.arena_irrelevant",
     ],
-    families=[dict(name="chunker", quick=3000, thorough=300000)],
+    families=[dict(name="chunker", quick=3000, thorough=48000)],
     technique="Lean 4 proof (invariant over pump calls on top of the read_n model; all streams, well-behaved read schedules, "
               "block sizes and arena states) + model/implementation correspondence + reference splitter oracle",
     design_ref="DESIGN.md section 5, C08 (finding F1, observation O1)",
@@ -90,11 +90,12 @@ SPECS["C06"] = dict(
         "Woodpile.Props.C06.reader_schedule_independent",
         "Woodpile.Props.C06.reader_generic_judge",
         "Woodpile.Props.C06.std_judges_ok",
+        "Woodpile.Props.C06.last_sentinel_offset_correct",
         "Woodpile.Props.C06.clamp_in_code",
         "Woodpile.Props.C06.resync_segment",
         "Woodpile.Props.C06.resync",
     ],
-    families=[dict(name="reader", quick=3000, thorough=300000)],
+    families=[dict(name="reader", quick=3000, thorough=32000)],
     technique="Lean 4 proof (per-chunk invariant of next_record_bytes over the C08 chunker model and the incremental decoder "
               "model; all streams, well-behaved read schedules, block sizes, judge parameters) + model/implementation "
               "correspondence + reference splitter/decoder oracle",
@@ -121,7 +122,7 @@ SPECS["C06"] = dict(
                 "(never panics, output before the first None is a sub-list of the KeepGoing output) under the side condition "
                 "JudgeOK; a judge answering SkipRecord on an empty range makes the real code panic "
                 "(assert_eq!(range.is_empty(), state == SkipSentinel)), reproduced by model and harness alike (reported as an "
-                "observation). last_sentinel_offset is compared by correspondence and checked by the oracle, not yet a theorem."),
+                "observation). last_sentinel_offset is a theorem for judges that never Stop (last_sentinel_offset_correct), and is compared by correspondence and checked by the oracle in all cases."),
     trusted_base=["std::io::Read::chain semantics", "SplitIndep prod (discharged by the C01/C07 decoder refinement theorem)"],
     assumptions=["64-bit usize; limit_offset None = u64::MAX is modelled as 'never'; streams shorter than 2^64 bytes"],
 )
